@@ -152,7 +152,9 @@ impl<const N: usize> AEADCipherCodec<N> {
             let salt = src.split_to(session.identity.salt.len());
             trace!("[tcp] get request salt {}", Base64::encode_string(&salt));
             self.decoder = Some(super::aead::new_decoder(context.kind, &context.key, &salt).map_err(anyhow::Error::msg)?);
-            Ok(None)
+            // chunks that arrived in the same read as the salt are complete frames: decode them now, the framed reader
+            // only calls again after more input
+            self.decode(context, session, src)
         }
     }
 
